@@ -56,7 +56,10 @@ def _case(draw):
                     lst.append([{v: -1.0}, float(-w[v] + draw(st.sampled_from([0, 1, 3])))])
     else:
         c = draw(gens.wild_contract_s(ins, outs, w, na=(0, 3), ng=(1, 4)))
-        if cls == "infeasible":
+        if cls == "infeasible" and draw(st.integers(0, 3)) == 0:
+            # a constraint without variables that cannot hold (0 <= -1), as left by a cancelling rename or written as "x - x <= -1"
+            (c["g"] if draw(st.booleans()) else c["a"]).append([{}, -float(draw(st.sampled_from([1, 2, 0.5])))])
+        elif cls == "infeasible":
             src = draw(st.sampled_from(c["a"] + c["g"]))
             neg = [{k: -v for k, v in src[0].items()}, -src[1] - draw(st.sampled_from([1, 2, 0.5]))]
             if all(k in ins for k in neg[0]) and draw(st.booleans()):
@@ -136,7 +139,4 @@ def run_case(case):
         viol = _cmp(None, raised, kmax, vmax, "get_variable_bounds(%r)" % v)
     else:
         viol = _cmp(got[0], None, kmin, vmin, "get_variable_bounds(%r)[min]" % v) or _cmp(got[1], None, kmax, vmax, "get_variable_bounds(%r)[max]" % v)
-        if viol is None and kmax != "infeasible":
-            wv = F(case["c"].get("_w", {}).get(v, 0))
-            del wv
     return {"viol": viol, "nontrivial": bool(allc), "labels": labels, "outcome": "judged"}
